@@ -124,5 +124,26 @@ def gen(rng, tier):
             tfield = hx(t)
             if rng.randrange(25) == 0:
                 tfield = "raw:0:%d" % rng.choice([1325880984, 3771378513, rng.getrandbits(32)])     # retro-format keys
-            ops.append("authz %d %d %d %d %d %s %d %d %s %d" % (rng.getrandbits(15), m2, c2, s2, perms, tfield, exp, banned, hx(request(rng, t)), perm))
+            salt = rng.getrandbits(15)
+            req = request(rng, t)
+            line = "authz %d %d %d %d %d %s %d %d %s %d" % (salt, m2, c2, s2, perms, tfield, exp, banned, hx(req), perm)
+            ops.append(line)
+            q = rng.randrange(12)
+            if q == 0:
+                # the same issued key presented with characters appended / prepended / dropped: never a key
+                m = rng.choice(["app:" + hx(rng.choice([b"A", b"AA", b"AAA", b"AAAA", b"BBBBBBBB", b"=", b"=="])),
+                                "pre:" + hx(rng.choice([b"A", b"AAAA"])), "trunc:%d" % rng.choice([1, 2, 4])])
+                ops.append(line + " mangle=" + m)
+            elif q == 1 and not tfield.startswith("raw:"):
+                # a private-link extension made with the key in between: the key string itself keeps
+                # authorizing exactly what it did (no shared state between requests)
+                xperms = perms | 64
+                base = "%d %d %d %d %d %s %d" % (salt, m2, c2, s2, xperms, tfield, exp)
+                probe = [request(rng, t), req, request(rng, t)]
+                for pr in probe:
+                    ops.append("authz %s 0 %s %d" % (base, hx(pr), rng.choice([perm, 64, 2, 4])))
+                ops.append("extend %s %s %s %d" % (base, hx(req.split(b"?")[0]), hx(rng.choice([b"7", b"c1", b"ABCDEFGHJK"])), rng.choice([255, 6, 2])))
+                for pr in probe:
+                    ops.append("authz %s 0 %s %d" % (base, hx(pr), rng.choice([perm, 64, 2, 4])))
+                    ops.append("authz %s 0 %s %d" % (base, hx(pr.split(b"?")[0] + b"7/"), rng.choice([2, 4])))
     return ops
